@@ -184,10 +184,25 @@ func (ix *Index) noteBlobIndexedLocked(br blob.Ref) {
 	mak.Set(&ix.recentDone, br, true)
 }
 
+// ix.mu must be held.
 func (ix *Index) removeAllMissingEdges(br blob.Ref) {
+	// Edges to blobs that br is still waiting for (as just recorded by
+	// noteNeeded for an index dependency, e.g. a delete claim received
+	// before its target) must survive: they're needed to resume the
+	// out-of-order indexing after a restart.
+	var stillNeeded map[string]bool
+	for _, need := range ix.needs[br] {
+		if stillNeeded == nil {
+			stillNeeded = make(map[string]bool)
+		}
+		stillNeeded[keyMissing.Key(br, need)] = true
+	}
 	var toDelete []string
 	it := ix.queryPrefix(keyMissing, br)
 	for it.Next() {
+		if stillNeeded[it.Key()] {
+			continue
+		}
 		toDelete = append(toDelete, it.Key())
 	}
 	if err := it.Close(); err != nil {
